@@ -313,10 +313,12 @@ impl CmdBuild {
         let mut prj_namespace = Namespace::new();
         prj_namespace.push(resource_table::insert_str(&metadata.project.name));
 
-        let mut candidate_symbols: Vec<_> = type_dag::connected_components()
-            .into_iter()
+        let components = type_dag::connected_components();
+        let mut candidate_symbols: Vec<_> = components
+            .iter()
             .filter(|symbols| symbols[0].namespace.included(&prj_namespace))
             .flatten()
+            .cloned()
             .collect();
         if include_tests {
             candidate_symbols.extend(symbol_table::get_all().into_iter().filter(|symbol| {
@@ -356,6 +358,55 @@ impl CmdBuild {
             ret.push(path.clone());
         }
 
+        // A file holding several symbols sits at the position of the first of them, which may
+        // precede a file another of its symbols depends on. Reorder by the dependencies between
+        // files: each component is a symbol followed by everything it depends on.
+        let listed: HashSet<PathBuf> = ret.iter().map(|x| x.src.clone()).collect();
+        let mut depends: HashMap<PathBuf, HashSet<PathBuf>> = HashMap::new();
+        for symbols in &components {
+            let TokenSource::File { path: user, .. } = symbols[0].token.source else {
+                continue;
+            };
+            let user = PathBuf::from(format!("{user}"));
+            if !listed.contains(&user) {
+                continue;
+            }
+            for symbol in &symbols[1..] {
+                if let TokenSource::File { path, .. } = symbol.token.source {
+                    let path = PathBuf::from(format!("{path}"));
+                    if path != user && listed.contains(&path) {
+                        depends.entry(user.clone()).or_default().insert(path);
+                    }
+                }
+            }
+        }
+
+        Self::order_by_dependencies(ret, &depends)
+    }
+
+    /// Stable topological order: repeatedly takes the first file whose dependencies are all
+    /// placed. If the files reference each other cyclically, the rest keeps its order.
+    fn order_by_dependencies(
+        files: Vec<PathSet>,
+        depends: &HashMap<PathBuf, HashSet<PathBuf>>,
+    ) -> Vec<PathSet> {
+        let mut rest = files;
+        let mut placed: HashSet<PathBuf> = HashSet::new();
+        let mut ret = Vec::with_capacity(rest.len());
+        while !rest.is_empty() {
+            let ready = rest.iter().position(|x| {
+                depends
+                    .get(&x.src)
+                    .is_none_or(|deps| deps.iter().all(|dep| placed.contains(dep)))
+            });
+            if let Some(i) = ready {
+                let file = rest.remove(i);
+                placed.insert(file.src.clone());
+                ret.push(file);
+            } else {
+                ret.append(&mut rest);
+            }
+        }
         ret
     }
 }
